@@ -555,7 +555,9 @@ class Prog:
                 "sample": {"cfg": self.cfg, "threads": [th[:6] for th in self.case["threads"]]}}
 
 
-C15.rule = ("histories drawn from VERIF_SEED over print/markup/log/rule/line/out/bell/clear/show_cursor/capture/export_text/export_html "
+C15.rule = ("histories drawn from VERIF_SEED over print (30% with formatting options: end, soft_wrap, justify, no_wrap/overflow, crop, width, markup)/markup/log/rule/line/out/bell/clear/show_cursor/"
+            "capture (also nested in captures and buffered blocks, also left by exception)/export_text/export_html, with injected faults: prints whose renderable raises (caught by the program), "
+            "output operations during which the file refuses the write or fails the flush after it "
             "x colour system {None, standard, 256, truecolor} x terminal or not x width; 55% single-thread (exports at arbitrary points), "
             "45% 2-3 threads under a seeded schedule (exports at quiescence); non-trivial = at least one operation; distinct = distinct (case, switch-signature)")
 C15.components_real = ["rich.console (record buffer, capture, export_text, export_html, control)", "rich.segment (simplify, filter_control)", "rich.style (render, get_html_style)", "renderers"]
@@ -563,5 +565,6 @@ C15.components_stub = ["file -> SimFile", "threading primitives / scheduler -> d
 C15.assumptions = ["visible text of the file = what dsim.term's tokenizer leaves after removing escape sequences and C0 controls (newlines kept)",
                    "HTML text = <pre> body with tags removed and entities decoded (html.unescape)",
                    "styled export is compared with the file per character (attributes + link always; colours only on a truecolor console, since the export is always truecolor)",
-                   "nested capture() blocks are not generated (their semantics are not specified by the property)"]
+                   "after an injected file error the program catches the OSError and goes on; whole-write granularity only (a write is taken or refused; torn writes are not injected: a text stream gives no way to learn how much was taken)",
+                   "a print whose renderable raises does so before yielding anything, so the failed print has no partial output of its own"]
 CHECK = C15()
